@@ -119,9 +119,21 @@ def rqDecode (s1 : BSt) (st : Stmt) : BSt :=
   match st.kind with
   | .removal f => { s1 with removalFlags := s1.removalFlags ++ [((s1.lgOf st.lg).gid, f)] }
   | _ => s1
-def rqMove (s : BSt) (i : Nat) (st : Stmt) (rest : List Stmt) : BSt :=
+def rqMove0 (s : BSt) (i : Nat) (st : Stmt) (rest : List Stmt) : BSt :=
   (rqDecode (rqPrep s i) st).setTh i (fun t =>
     { t with q := qFinishRead (rqDecode (rqPrep s i) st).cfg t.q st.size, qStmts := rest, buf := t.buf ++ [st] })
+/-- one record decoded, moved to the transit buffer and formatted (a caught formatter exception is reported) -/
+def rqMove (s : BSt) (i : Nat) (st : Stmt) (rest : List Stmt) : BSt := fmtNote (rqMove0 s i st rest) st
+
+theorem rqMove_proj (s : BSt) (i : Nat) (st : Stmt) (rest : List Stmt) :
+    (rqMove s i st rest).ths = (rqMove0 s i st rest).ths ∧ (rqMove s i st rest).cfg = (rqMove0 s i st rest).cfg ∧
+    (rqMove s i st rest).actors = (rqMove0 s i st rest).actors := by
+  unfold rqMove fmtNote
+  split <;> exact ⟨rfl, rfl, rfl⟩
+
+theorem rqMove_th_eq (s : BSt) (i : Nat) (st : Stmt) (rest : List Stmt) (j : Nat) :
+    (rqMove s i st rest).th j = (rqMove0 s i st rest).th j := by
+  simp only [BSt.th, (rqMove_proj s i st rest).1]
 
 def rqLate (tsNow : Option Nat) (st : Stmt) : Bool :=
   match tsNow with | some t => decide (t < st.ts) | none => false
@@ -158,7 +170,12 @@ theorem PI.rqMove (h : PI c none fl T C s) (i : Nat) (hc : i ∈ C) (st : Stmt) 
     (hq : (s.th i).qStmts = st :: rest) (hst : c.grace ≠ 0 → c.refreshAfterSample = true → st.ts ≤ fl)
     (hrd : (qPrepareRead s.cfg (s.th i).q).2 = true) :
     PI c none fl (fun j => T j ∧ j ≠ i) C (rqMove s i st rest) := by
-  unfold PB.rqMove
+  suffices h0 : PI c none fl (fun j => T j ∧ j ≠ i) C (rqMove0 s i st rest) by
+    unfold PB.rqMove fmtNote
+    split
+    · exact h0.same (Same.ofCore rfl)
+    · exact h0
+  unfold PB.rqMove0
   have hs1 : Same s (rqPrep s i) := same_rqPrep s i
   have hs2 : Same (rqPrep s i) (rqDecode (rqPrep s i) st) := by
     unfold rqDecode
